@@ -209,6 +209,12 @@ fn clvm_tree_to_lazy_node(obj: Bound<'_, PyAny>) -> PyResult<LazyNode> {
     let root_ptr = obj.as_ptr() as usize;
     let mut stack: Vec<WorkItem<'_>> = vec![WorkItem::Visit(obj)];
 
+    // identity_map is keyed by object address. Every object whose address is
+    // in the map must stay alive until we're done, otherwise a `pair` accessor
+    // that creates fresh child objects (like LazyNode) may get a new object
+    // allocated at the address of one we already visited
+    let mut keep_alive: Vec<Bound<'_, PyAny>> = Vec::new();
+
     while let Some(item) = stack.pop() {
         match item {
             WorkItem::Visit(pyobj) => {
@@ -217,6 +223,7 @@ fn clvm_tree_to_lazy_node(obj: Bound<'_, PyAny>) -> PyResult<LazyNode> {
                 if identity_map.contains_key(&id) {
                     continue;
                 }
+                keep_alive.push(pyobj.clone());
 
                 let atom_val: Option<Vec<u8>> = pyobj.getattr("atom")?.extract()?;
 
